@@ -396,7 +396,8 @@ pub fn flex_layout(
                     let child_minor = direction.minor(child_layout.size());
 
                     // update counters
-                    major_remain -= child_major;
+                    // child can take more than its share (it is not obliged to honour constraints)
+                    major_remain = major_remain.saturating_sub(child_major);
                     major_flex += child_major;
                     minor = max(minor, child_minor);
                 }
